@@ -472,3 +472,15 @@ package action
 //@   props C17
 //@   requires c != nil && settings != nil
 //@   ensures [verification-required-means-verified] old(c.Verify) && err == nil ==> (exists f string :: chartVerifiedBy(f, old(c.Keyring)) && (result == f || result == fabs(f)))
+
+// ---- C09 / C01: the name check of install — a name with stored history is refused unless --replace is
+// set and the latest revision is uninstalled or failed
+
+//@ ghost func latestRevision(name string, v int) bool = Dex[mkkey(name, v)] && Dname[mkkey(name, v)] == name && (forall w int :: Dex[mkkey(name, w)] && Dname[mkkey(name, w)] == name ==> w <= v)
+
+//@ func (*Install).availableName
+//@   props C09 C01
+//@   requires i != nil && cfgReady(i.cfg) && ledgerWF()
+//@   ensures [name-in-use-is-refused-without-replace] result == nil && !old(installDryRun(i)) && !i.Replace ==> (forall v int :: !(Dex[mkkey(i.ReleaseName, v)] && Dname[mkkey(i.ReleaseName, v)] == i.ReleaseName))
+//@   ensures [replace-only-over-an-uninstalled-or-failed-latest-revision] result == nil && !old(installDryRun(i)) ==> (forall v int :: latestRevision(i.ReleaseName, v) ==> Dst[mkkey(i.ReleaseName, v)] == "uninstalled" || Dst[mkkey(i.ReleaseName, v)] == "failed")
+//@   ensures [reads-only] Dex == old(Dex) && Dst == old(Dst) && Dwritten == old(Dwritten) && Kmutated == old(Kmutated)
